@@ -184,9 +184,21 @@ def classify_reject(c):
 # ---------------------------------------------------------------------------
 # one object, several enc/dec calls in a row: every result is the standard's
 def check_history(c):
-    obj = guard(CI.make, c)
+    shared = {}
+    obj = guard(CI.make, c, shared)
     tag = CI.label(c)
+    n = CI.BLOCK[c["cipher"]]
+    sc = CI.sibling(c)
+    sib = guard(CI.make, sc) if c.get("sib") else None     # another key, built after obj, used between its calls
     for i, (d, blk) in enumerate(c["calls"]):
+        if sib is not None and i % 2 == 1:
+            sb = blk[:n].ljust(n, b"s")
+            if guard(sib.enc, sb) != CI.ref_enc(sc, sb):
+                raise Violation("%s:call-history:sibling-object:enc!=standard" % tag, None, None)
+        if i == len(c["calls"]) - 1 and "K" in shared:
+            obj = guard(CI.make, c, shared)                # a later object on the caller's same key vectors
+            if not CI.unchanged(shared):
+                raise Violation("%s:call-history:caller's-key-vector-changed" % tag, shared["snap"], None)
         if d.startswith("bad-"):
             # a block of the wrong size is refused (judged by the undefined-sizes facet); here it only disturbs the object
             attempt(getattr(obj, d[4:]), blk)
@@ -204,8 +216,8 @@ def history_strategy(tier):
         n = CI.BLOCK[c["cipher"]]
         call = st.tuples(st.sampled_from(["enc", "dec"]), gen.blob(n))
         bad = st.tuples(st.sampled_from(["bad-enc", "bad-dec"]), gen.blob_of(st.sampled_from([n - 1, n + 1, 0, n // 2, 2 * n])))
-        return st.lists(gen.pick((5, call), (1, bad)), min_size=2, max_size=6).map(
-            lambda l: dict(c, calls=tuple(l) if not l[-1][0].startswith("bad-") else tuple(l) + (("enc", bytes(n)), ("dec", bytes(n)))))
+        return st.tuples(st.lists(gen.pick((5, call), (1, bad)), min_size=2, max_size=6), st.booleans()).map(
+            lambda t: dict(c, sib=t[1], calls=tuple(t[0]) if not t[0][-1][0].startswith("bad-") else tuple(t[0]) + (("enc", bytes(n)), ("dec", bytes(n)))))
     return CI.config_strategy().flatmap(with_calls)
 
 
@@ -224,9 +236,11 @@ FACETS = [
     Facet("call-histories", check_history, strategy=history_strategy, budget={"quick": 1600, "thorough": 30000},
           shards={"quick": 16, "thorough": 32}, nontrivial=lambda c: len(c["calls"]) >= 2,
           classify=lambda c: (CI.label(c), "".join(d[0] for d, _ in c["calls"])[:3],
-                              "has refused call" if any(d.startswith("bad-") for d, _ in c["calls"]) else "no refused call"),
+                              "has refused call" if any(d.startswith("bad-") for d, _ in c["calls"]) else "no refused call",
+                              "sibling object with another key" if c.get("sib") else "no sibling"),
           rule="2..6 enc/dec calls with different blocks on ONE object, each compared with the reference (cached key schedules, stale state); "
-               "one call in six passes a block of the wrong size (refused) before the following calls are judged"),
+               "one call in six passes a block of the wrong size (refused) before the following calls are judged; in half of the cases a sibling object "
+               "with another key is used in between; the last call is made by a later object built on the caller's same Bits key vectors (unchanged)"),
     Facet("undefined-sizes", check_reject, strategy=reject_strategy, budget={"quick": 1200, "thorough": 20000},
           nontrivial=lambda c: True, classify=classify_reject,
           rule="AES key not in {16,24,32}, DES key != 8, TDEA strings/arguments of other lengths, Serpent key > 256 bits, Threefish key/tweak "
